@@ -7,6 +7,7 @@ package main
 
 import (
 	"bytes"
+	"reflect"
 	"context"
 	"errors"
 	"fmt"
@@ -23,6 +24,20 @@ var errStop = errors.New("verif: stop")
 
 type fatalValue struct{ S string }
 
+// host values with embedded pointers, maps and slices of structs
+type HostInner struct{ Name string }
+type HostOuter struct {
+	*HostInner
+	ID int
+}
+type HostDeep struct {
+	HostOuter
+	M map[string]HostInner
+	S []HostInner
+	P *HostInner
+	A [2]HostInner
+}
+
 var hostPkg = native.Packages{"host": native.Package{Name: "host", Declarations: hostDecls}}
 
 var hostDecls = native.Declarations{
@@ -37,6 +52,9 @@ var hostDecls = native.Declarations{
 	"Ident":       func(i int) int { return i },
 	"Call":        func(f func()) { f() },
 	"NilFunc":     (func())(nil),
+	"Outer":       reflect.TypeOf(HostOuter{}),
+	"Deep":        reflect.TypeOf(HostDeep{}),
+	"Inner":       reflect.TypeOf(HostInner{}),
 	"Err":         errors.New("native error value"),
 }
 
@@ -352,6 +370,33 @@ func faultTable() []faultCase {
 	raw("Template/Fatal", "OpCallNative", "fatal", "", true)
 	raw("Template/native-panic", "OpCallNative", "string", "native panic", true)
 	raw("Template/markdown-partial-without-converter", "OpCallMacro", "fatal", "", false)
+	// host structs: fields promoted through nil embedded pointers, nil pointer fields, slices and maps of structs
+	const np = "runtime error: invalid memory address or nil pointer dereference$"
+	hg := func() native.Declarations {
+		return native.Declarations{"o": &HostOuter{ID: 1}, "d": &HostDeep{S: []HostInner{{"s0"}}}, "i": (*int)(nil)}
+	}
+	for _, hc := range []struct{ entry, src, want string }{
+		{"HostField/promoted-through-nil-embedded-pointer", "{{ o.ID }}{{ o.Name }}", pe + np},
+		{"HostField/promoted-two-steps-through-nil-embedded-pointer", "{{ d.ID }}{{ d.Name }}", pe + np},
+		{"HostField/nil-pointer-field", "{{ d.P.Name }}", pe + np},
+		{"HostField/direct-field-of-struct-with-nil-embedded", "{{ o.ID }}{{ d.ID }}", "^nil$"},
+		{"HostIndex/slice-of-structs-out-of-range", "{{ d.S[i].Name }}", pe + "runtime error: index out of range \\[7\\] with length 1$"},
+		{"HostIndex/array-of-structs-out-of-range", "{{ d.A[i].Name }}", pe + "runtime error: index out of range \\[7\\] with length 2$"},
+		{"HostIndex/nil-map-of-structs-read", "{{ d.M[\"k\"].Name }}", "^nil$"},
+		{"HostSetMap/nil-map-of-structs", "{% d.M[\"k\"] = d.S[0] %}", pe + "assignment to entry in nil map$"},
+		{"HostSetField/through-nil-embedded-pointer", "{% o.Name = \"x\" %}", pe + np},
+		{"HostSetField/nil-pointer-field", "{% d.P.Name = \"x\" %}", pe + np},
+		{"HostAddr/field-through-nil-embedded-pointer", "{% var p = &o.Name %}{{ *p }}", pe + np},
+	} {
+		addT(hc.entry, tmplRun{files: one("i.txt", hc.src), name: "i.txt", globals: hg(), vars: map[string]any{"i": 7}}, hc.want)
+	}
+	add("HostField/program-promoted-through-nil-embedded-pointer", "var o host.Outer\nprintln(o.ID)\nprintln(o.Name)", pe+np)
+	add("HostField/program-set-through-nil-embedded-pointer", "var o host.Outer\no.Name = \"x\"", pe+np)
+	add("HostField/program-nil-pointer-to-host-struct", "var p *host.Deep\nprintln(p.ID)", pe+np)
+	add("HostIndex/program-slice-of-host-structs", "var d host.Deep\ni := 2\nprintln(d.S[i].Name)", pe+"runtime error: index out of range \\[2\\] with length 0$")
+	addT("Call/imported-recursive-macro-depth-600", tmplRun{files: scriggo.Files{"i.html": []byte(`{% import "m.html" %}[{{ Count(600) }}]`),
+		"m.html": []byte(`{% macro Count(n int) %}{% if n > 0 %}{{ Count(n-1) }}{% end %}{% end %}`)}, name: "i.html"}, "^nil$")
+	mark("Call/imported-recursive-macro-depth-600", "host-panic:call-stack-overflow", "index out of range [512]")
 	t = append(t, faultCase{entry: "Context/cancelled", kind: "program", src: prog("for {\n}"), want: "^ctx:context canceled$", ctxCancel: true})
 	return t
 }
